@@ -186,24 +186,29 @@ def _mk_unary(op, ka):
             h.ensure("complement-of-whole-is-empty-singleton", r is EmptyShape())
 
 
-@proof("C01.nesting-depth-2", "C01", abstract=True, tier="thorough", timeout=1200,
-       funcs=["shape.DefinedShape.__or__", "shape.DefinedShape.__and__", "shape.BaseShape.__sub__", "shape.BaseShape.__xor__"])
-def _nest(h):
-    """closure under nesting, checked directly for (A op1 B) op2 C with three Defined operands (all real operator
-    code, stubs only at the leaves): the induction step instantiated."""
-    if not h.sym:
-        return
-    for op1 in ("or", "and", "sub"):
-        for op2 in ("or", "and", "sub"):
-            w = World(h)
-            a, b, c = w.new("Simple"), w.new("Connected"), w.new("Disjoint")
-            px, py = z3.Reals("px py")
-            with h.stubs(w.patches()):
-                r = OPS[op2][0](OPS[op1][0](a, b), c)
-            g = w.g
-            off = w.off(px, py, a, b, c)
-            want = OPS[op2][1](OPS[op1][1](g.r(a, px, py), g.r(b, px, py)), g.r(c, px, py))
-            h.ensure(f"pointwise[{op1},{op2}]", SymBool(z3.Implies(off, g.r(r, px, py) == want)))
+def _mk_nest(op1, op2):
+    @proof(f"C01.nesting-depth-2[{op1},{op2}]", "C01", abstract=True, tier="quick", timeout=900, max_paths=40000,
+           funcs=["shape.DefinedShape.__or__", "shape.DefinedShape.__and__", "shape.BaseShape.__sub__", "shape.BaseShape.__xor__"])
+    def _nest(h):
+        """closure under nesting, checked directly for (A op1 B) op2 C with three Defined operands (all real operator
+        code, stubs only at the leaves): the induction step instantiated."""
+        if not h.sym:
+            return
+        w = World(h)
+        a, b, c = w.new("Simple"), w.new("Connected"), w.new("Disjoint")
+        px, py = z3.Reals("px py")
+        with h.stubs(w.patches()):
+            r = OPS[op2][0](OPS[op1][0](a, b), c)
+        g = w.g
+        off = w.off(px, py, a, b, c)
+        want = OPS[op2][1](OPS[op1][1](g.r(a, px, py), g.r(b, px, py)), g.r(c, px, py))
+        h.ensure("pointwise", SymBool(z3.Implies(off, g.r(r, px, py) == want)))
+        h.ensure("boundary-inclusion", SymBool(z3.Implies(g.bd(r, px, py), z3.Or(g.bd(a, px, py), g.bd(b, px, py), g.bd(c, px, py)))))
+
+
+for _o1 in ("or", "and", "sub"):
+    for _o2 in ("or", "and", "sub"):
+        _mk_nest(_o1, _o2)
 
 
 @proof("C06.singletons", "C06", funcs=["shape.SingletonShape.__new__", "shape.SingletonShape.__copy__", "shape.SingletonShape.__deepcopy__",
